@@ -91,7 +91,56 @@ func (eng *Engine) verifyFunc(sp *FuncSpec) (res *FuncResult) {
 			e.assume(st, e.oldRefs(st, t, p.Type()))
 		}
 		args = append(args, Val{T: t})
-		e.inputs = append(e.inputs, inputVar{Name: name, Typ: p.Type(), T: t})
+		iv := inputVar{Name: name, Typ: p.Type(), T: t}
+		// constants naming the first elements, so that a counterexample can be turned into a concrete argument
+		switch u := p.Type().Underlying().(type) {
+		case *types.Slice:
+			if b, ok := u.Elem().Underlying().(*types.Basic); ok && b.Info()&(types.IsInteger|types.IsFloat|types.IsBoolean) != 0 {
+				mn, ms := e.memArr(u.Elem())
+				arr := c.Select(e.heapGet(st, mn, ms), tm.SliceBase(t))
+				for k := 0; k < replayElems; k++ {
+					v := c.Fresh(fmt.Sprintf("in_%s.e%d", name, k), tm.Sort(u.Elem()))
+					iv.Elems = append(iv.Elems, v)
+					e.inputDefs = append(e.inputDefs, c.Eq(v, c.Select(arr, c.Add(tm.SliceOff(t), c.Int(int64(k))))))
+				}
+			}
+		case *types.Pointer:
+			if isStructT(u.Elem()) {
+				n := 0
+				var mirror func(v *Term, ty types.Type, path string) *Term
+				mirror = func(v *Term, ty types.Type, path string) *Term {
+					if isStructT(ty) {
+						si := tm.Struct(ty)
+						var as []*Term
+						for i, f := range si.fields {
+							as = append(as, mirror(c.Sel(f.sel, f.sort, i, si.ctor, v), f.typ, path+"."+f.name))
+						}
+						return c.App(si.ctor, si.sort, as...)
+					}
+					if b, ok := ty.Underlying().(*types.Basic); ok && b.Info()&(types.IsInteger|types.IsFloat|types.IsBoolean) != 0 && n < 64 {
+						n++
+						k := c.Fresh("in_"+name+path, v.sort)
+						e.inputDefs = append(e.inputDefs, c.Eq(k, v))
+						iv.Elems = append(iv.Elems, k)
+						return k
+					}
+					return v
+				}
+				whole := e.loadObj(st, t, u.Elem())
+				iv.Pointee = mirror(whole, u.Elem(), "")
+			}
+		case *types.Basic:
+			if u.Info()&types.IsString != 0 {
+				iv.LenVar = c.Fresh("in_"+name+".len", "Int")
+				e.inputDefs = append(e.inputDefs, c.Eq(iv.LenVar, e.strLen(t)))
+				for k := 0; k < replayElems; k++ {
+					v := c.Fresh(fmt.Sprintf("in_%s.c%d", name, k), "Int")
+					iv.Elems = append(iv.Elems, v)
+					e.inputDefs = append(e.inputDefs, c.Eq(v, e.strAt(t, c.Int(int64(k)))))
+				}
+			}
+		}
+		e.inputs = append(e.inputs, iv)
 	}
 	fr := e.newFrame(fn)
 	fr.spec = sp
@@ -169,6 +218,10 @@ func (eng *Engine) discharge(frs []*FuncResult, sv *Solvers, only func(name stri
 			var mts []*Term
 			for _, in := range j.fr.Exec.inputs {
 				mts = append(mts, leafTerms(in.T)...)
+				mts = append(mts, in.Elems...)
+				if in.LenVar != nil {
+					mts = append(mts, in.LenVar)
+				}
 			}
 			pm := map[[2]int]*Term{}
 			reachP, condP := o.Reach, o.Cond
@@ -176,7 +229,7 @@ func (eng *Engine) discharge(frs []*FuncResult, sv *Solvers, only func(name stri
 				reachP, condP = c.Polarize(o.Reach, true, pm), c.Polarize(o.Cond, false, pm)
 			}
 			ts, insts := j.fr.Exec.instantiateLoopFrames([]*Term{reachP, c.Not(condP)})
-			j.or.Query = c.Query(append(ts, insts...), true, mts)
+			j.or.Query = c.Query(append(append(ts, insts...), j.fr.Exec.inputDefs...), true, mts)
 		}
 	}
 	sem := make(chan struct{}, sv.Parallel)
